@@ -14,6 +14,7 @@ import (
 	"fmt"
 	"os"
 	"regexp"
+	"runtime/pprof"
 	"sort"
 	"strings"
 	"sync"
@@ -36,6 +37,7 @@ type Case struct {
 	Files     map[string]string `json:"files,omitempty"`
 	World     *WorldInfo        `json:"world,omitempty"` // module table and file ownership (texts are in Files)
 	Note      string            `json:"note,omitempty"`
+	Fault     *FaultPlan        `json:"fault,omitempty"` // fault phase: the injected read fault
 }
 
 // WorldInfo is the structure of a world without the texts, enough to re-judge a recorded case.
@@ -137,7 +139,7 @@ func assignments(n int) (mods [][]int, dirs [][]string) {
 }
 
 func specKey(s *Spec) string {
-	return fmt.Sprintf("%v|%v|%v|%v|%v|%d", s.Kind, s.Syntax, s.Wkt, s.Mod, s.ModDirs, s.Shadow)
+	return fmt.Sprintf("%v|%v|%v|%v|%v|%d.%d", s.Kind, s.Syntax, s.Wkt, s.Mod, s.ModDirs, s.Shadow, s.ShadowWkts)
 }
 
 // subDirSelections: the workspace root and every module directory as the input.
@@ -352,6 +354,13 @@ func selections(w *World, mode int, nope bool) []Selection {
 func run(r *evid.Run) {
 	rn := &runner{r: r, ctx: context.Background(), cnt: counters{}}
 	quick := r.Quick()
+	if p := os.Getenv("C01_CPUPROFILE"); p != "" { // debugging aid
+		if f, err := os.Create(p); err == nil {
+			if pprof.StartCPUProfile(f) == nil {
+				defer func() { pprof.StopCPUProfile(); f.Close() }()
+			}
+		}
+	}
 	r.Rule("phase graph: every labelled import DAG on n<=3 files x every edge labelling over {plain, public, unused-plain} (thorough: + n=4 plain) " +
 		"x every assignment of the files to <=2 modules (single module as directory and as workspace root) x decoration (per-file syntax in {proto3, proto2, editions 2023, unspecified} " +
 		"and WKT import variant in {none, Any used last, Any unused first, descriptor.proto used by a custom option with a message literal + unused timestamp.proto}; quick 2 of 16 decorations per world, thorough all 16) " +
@@ -487,6 +496,9 @@ func run(r *evid.Run) {
 		}
 		if phaseOn("dup") {
 			rn.runDupPhase()
+		}
+		if phaseOn("fault") {
+			rn.runFaultPhase()
 		}
 		if phaseOn("cli") {
 			rn.runCLIPhase(scratch, items)
